@@ -761,6 +761,7 @@ class Run:
     def __init__(self, spec: dict[str, Any]) -> None:
         self.spec = spec
         self.rng = random.Random(spec.get('seed', 0))
+        self.rng_reput = random.Random(spec.get('seed', 0) * 31 + 3)
         self.violations: list[dict[str, Any]] = []
         self.counters: dict[str, int] = {}
         self.aborted: str | None = None
@@ -1189,6 +1190,17 @@ class Run:
         if kind == 'PUTSCRIPT':
             nm = self.pick_name(user, 0.3)
             script, validity = gen_script(rng)
+            # an editor saving again: the very bytes this connection uploaded
+            # under that name before (another connection of the user may have
+            # changed or removed the script in between)
+            mine = getattr(c, 'uploaded', None)
+            if mine is None:
+                mine = c.uploaded = []      # type: ignore[attr-defined]
+            if mine and self.rng_reput.random() < 0.3:
+                nm, script, validity = self.rng_reput.choice(mine)
+                self.count('identical_reuploads')
+            else:
+                mine.append((nm, script, validity))
             e = enc(script, rng, force=None if quotable(script) and
                     rng.random() < 0.3 else 'l')
             if e.startswith(b'{'):
@@ -1558,7 +1570,8 @@ class Run:
             order = sorted(self.users)
             rng.shuffle(order)
             for i, c in enumerate(self.conns):
-                who = order[i % len(order)]
+                who = order[0 if spec.get('same_user')
+                            else i % len(order)]
                 tok = base64.b64encode(b'\0%s\0%s' % (
                     who.encode(), self.users[who].encode()))
                 await self.step(c, 'AUTHENTICATE', {
@@ -1718,7 +1731,97 @@ class Run:
         await self.hangup(c, 'after PUTSCRIPT "x" {0+} CRLF')
 
 
-SCRIPTS = {'put-invalid': Run.script_put_invalid,
+async def maildir_single(run: 'Run') -> None:
+    """The maildir backend keeps one script per user under the fixed name
+    "active" (``SingleFilterSet``).  Within that restriction the statement
+    still applies: PUTSCRIPT "active" that is answered OK, then GETSCRIPT
+    returns the same bytes - to the same connection, to another connection of
+    the user, and not to the other user - and LISTSCRIPTS lists it as
+    active."""
+    rng = run.rng
+    run.users = {'alice': 'pw1', 'bob': 'pw2'}
+    run.env = env = await make_env('maildir', users=dict(run.users))
+    env.config._tls_enabled = False     # PLAIN without the STARTTLS dance
+
+    async def conn(who: str) -> SieveConn:
+        run.ncid += 1
+        c = SieveConn(run.ncid, run.log)
+        c.start(env.sieve)
+        await c.read_response()
+        tok = base64.b64encode(b'\0%s\0%s' % (who.encode(),
+                                              run.users[who].encode()))
+        c.feed(b'AUTHENTICATE "PLAIN" "%s"\r\n' % tok)
+        r = await c.read_response()
+        if r.cond != b'OK':
+            run.aborted = 'maildir-login-refused'
+            raise Stop()
+        return c
+
+    async def ask(c: SieveConn, line: bytes) -> Resp:
+        c.feed(line)
+        run.count('commands_checked')
+        return await c.read_response()
+
+    def payload(r: Resp) -> bytes | None:
+        for line in r.data:
+            if line and line[0][0] in 'ql':
+                return line[0][1]
+        return None
+
+    def names(r: Resp) -> list[tuple[bytes, bool]]:
+        return [(line[0][1], len(line) > 1 and line[1][1].upper() == b'ACTIVE')
+                for line in r.data if line and line[0][0] in 'ql']
+    a1 = await conn('alice')
+    a2 = await conn('alice')
+    b1 = await conn('bob')
+    stored: bytes | None = None
+    for k in range(run.spec.get('len', 6)):
+        r0 = rng.random()
+        if r0 < 0.25:
+            script, validity = b'', 'unclear'
+        else:
+            script, validity = gen_script(rng)
+        if validity == 'invalid' or len(script) > SCRIPT_MUST:
+            continue
+        c = rng.choice([a1, a2])
+        r = await ask(c, b'PUTSCRIPT "active" {%d+}\r\n' % len(script) +
+                      script + b'\r\n')
+        what = 'maildir: PUTSCRIPT "active" <%d octets, %s> answered %s' % (
+            len(script), validity, r.cond.decode())
+        if r.cond == b'OK':
+            stored = script
+        elif validity == 'valid':
+            run.report('putscript-valid-refused:maildir', what)
+            return
+        if stored is None:
+            continue
+        for reader, tag in ((c, 'same connection'),
+                            (a2 if c is a1 else a1, 'other connection')):
+            g = await ask(reader, b'GETSCRIPT "active"\r\n')
+            run.count('payload_comparisons')
+            if g.cond != b'OK' or payload(g) != stored:
+                run.report('getscript-differs-from-put:maildir',
+                           '%s; GETSCRIPT on the %s: %s, payload %r, stored '
+                           '%r' % (what, tag, g.brief(),
+                                   (payload(g) or b'')[:60], stored[:60]))
+                return
+            ls = await ask(reader, b'LISTSCRIPTS\r\n')
+            run.count('payload_comparisons')
+            if ls.cond != b'OK' or names(ls) != [(b'active', True)]:
+                run.report('listscripts-omits-stored-name:maildir',
+                           '%s; LISTSCRIPTS on the %s: %s %r' % (
+                               what, tag, ls.brief(), names(ls)))
+                return
+        gb = await ask(b1, b'GETSCRIPT "active"\r\n')
+        if gb.cond == b'OK' and payload(gb) == stored and stored:
+            run.report('script-visible-to-other-user:maildir',
+                       'bob reads alice\'s script')
+            return
+    run.count('maildir_programs')
+
+
+SCRIPTS = {'maildir-single': maildir_single,
+           'put-invalid': Run.script_put_invalid,
            'eof-after-zero-literal': Run.script_eof_zero_literal,
            'auth-cancel': Run.script_auth_cancel,
            'literal-tail-name': Run.script_literal_tail,
@@ -1744,9 +1847,11 @@ class C19(Check):
             'non-trivial = at least 3 commands and at least one gate refusal '
             'or payload comparison')
     assumptions = [
-        'dict backend (the maildir backend keeps a single fixed-name script '
-        'and is not a general map); asyncio subsystem; one command in '
-        'flight at a time',
+        'dict backend for the general map (the maildir backend keeps a '
+        'single fixed-name script and is not a general map; a separate slice '
+        'checks put/get/list of that one name on maildir through two '
+        'connections of the user and one of the other user); asyncio '
+        'subsystem; one command in flight at a time',
         'valid scripts use only constructs of RFC 5228 + fileinto / reject / '
         'envelope with single-line strings (sievelib rejects multi-line '
         '"text:" strings; not attributed to pymap)',
@@ -1765,12 +1870,16 @@ class C19(Check):
     def cases(self, tier: str, seed: int) -> Iterable[dict[str, Any]]:
         n = 8000 if tier == 'quick' else 120000
         rng = random.Random(seed * 7919 + 19)
+        for i in range(n // 40):
+            yield {'seed': seed * 1_000_003 + i, 'script': 'maildir-single',
+                   'len': 6}
         for i in range(n):
             yield {'seed': seed * 1_000_003 + i,
                    'len': rng.randint(3, 20),
                    'prelude': rng.random() < 0.6,
                    'demo': rng.random() < 0.2,
-                   'tls': rng.random() < 0.15}
+                   'tls': rng.random() < 0.15,
+                   'same_user': i % 4 == 1}
 
     def setup_worker(self) -> None:
         lg = logging.getLogger('pymap')
